@@ -3,7 +3,10 @@
    - linearizability of every returned value (add results, nsync_counter_value, wait results) against an integer,
      checked at the end by searching for a linearization that respects real-time order;
    - a wait returns non-zero only at/after its deadline; a wait that starts after zero does not block;
-   - every waiter is released when the counter reaches zero (stuck detector). */
+   - every waiter is released when the counter reaches zero (stuck detector);
+   - C03: every decrementer writes its own plain payload slot before its first nsync_counter_add; the counter reaches zero only after
+     ALL decrements, so a thread whose nsync_counter_wait returned 0, or that read the value 0, reads every slot (the runtime's
+     happens-before detector judges the pairs). */
 #include "nsync.h"
 #include "vrt.h"
 #include <stdio.h>
@@ -15,6 +18,15 @@ static struct op ops[64];
 #define NOPS 0
 static int initial;
 static int64_t ts_ns (nsync_time t) { return (int64_t) t.tv_sec * 1000000000LL + t.tv_nsec; }
+/* C03 payloads: ordinary client data, one slot per decrementer (no two writers share one) */
+static int nd_total;
+static int slot[8];
+static void read_slots (const char *how) {
+	int k;
+	vrt_count ("payload_read");
+	for (k = 0; k < nd_total; k++)
+		if (slot[k] != 1) vrt_fail ("RACE", "payload written by decrementer %d before its decrement is not visible to a thread that %s", k, how);
+}
 
 static void record (long call, int kind, int delta, unsigned result) {
 	int i = (int) vrt_sh_add (NOPS, 1) - 1;
@@ -43,9 +55,10 @@ static void do_add (int d) {
 	vrt_note ("ret %d %u", vrt_self (), r);
 	record (t, 0, d, r); vrt_count ("add");
 }
-static void do_value (void) { long t = vrt_steps (); unsigned r = noted_value (); record (t, 1, 0, r); }
+static void do_value (void) { long t = vrt_steps (); unsigned r = noted_value (); record (t, 1, 0, r); if (r == 0) read_slots ("read the value 0"); }
 
 static void decrementer (void *a) {
+	slot[(int) (long) a] = 1;
 	if (vrt_rand (3) == 0) { do_add (1); do_add (-1); }   /* legal: our own decrement is still outstanding, the value is >= 1 */
 	if (vrt_rand (2)) do_value ();
 	do_add (-1);
@@ -58,7 +71,7 @@ static void waiter_thr (void *a) {
 	unsigned r;
 	if (timed) dl = vrt_abs ((int64_t) vrt_rand (5) * 800 - 800);
 	r = noted_wait (dl);
-	if (r == 0) { record (t, 2, 0, 0); vrt_count ("wait_zero"); }
+	if (r == 0) { record (t, 2, 0, 0); vrt_count ("wait_zero"); read_slots ("returned 0 from nsync_counter_wait"); }
 	else {
 		vrt_count ("wait_timeout");
 		if (!timed) vrt_fail ("C10", "wait without deadline returned %u", r);
@@ -70,9 +83,11 @@ static void late_waiter (void *a) {
 	/* waits until the counter is known to be zero, then a fresh wait must return 0 without blocking */
 	long before;
 	while (noted_value () != 0) vrt_yield ();
+	read_slots ("read the value 0");
 	before = vrt_sleeps_of (vrt_self ());
 	if (noted_wait (nsync_time_no_deadline) != 0) vrt_fail ("C10", "wait after zero returned non-zero");
 	if (vrt_sleeps_of (vrt_self ()) != before) vrt_fail ("C10", "a wait that started after the counter reached zero blocked");
+	read_slots ("returned 0 from nsync_counter_wait");
 }
 
 /* search for a linearization: order the ops so that running value matches, respecting real-time order */
@@ -99,8 +114,9 @@ int main (void) {
 	int i, nd = 1 + (int) vrt_rand (3), nw = (int) vrt_rand (3);
 	static char nm[8][8];
 	initial = nd;
+	nd_total = nd;
 	c = nsync_counter_new (initial);
-	for (i = 0; i < nd; i++) { snprintf (nm[i], 8, "d%d", i); vrt_thread (nm[i], decrementer, NULL); }
+	for (i = 0; i < nd; i++) { snprintf (nm[i], 8, "d%d", i); vrt_thread (nm[i], decrementer, (void *) (long) i); }
 	for (i = 0; i < nw; i++) { snprintf (nm[4 + i], 8, "w%d", i); vrt_thread (nm[4 + i], waiter_thr, (void *) (long) (vrt_rand (2))); }
 	if (vrt_rand (2)) vrt_thread ("late", late_waiter, NULL);
 	vrt_run ();
